@@ -37,7 +37,8 @@ PROPS = {
                  "HoldLockMaybeAsync callers running arbitrary programs of broadcast / getWaitCh / writes, any number of Wait calls, every interleaving of "
                  "critical sections, wake-ups, cancellations): a handed-out channel is closed iff a broadcast happened since (first later broadcast closes, "
                  "open until the next, closing monotone); Wait returns nil only on a true predicate, passes the predicate's error through, returns Canceled "
-                 "only if cancelled; no-lost-wake-up invariant (closed c or g = sampled value or an undisciplined write happened) and its quiescence corollary. "
+                 "only if cancelled; no-lost-wake-up invariant (closed c or g = sampled value or an undisciplined write happened) and its quiescence corollary; "
+                 "and the theorem that the property monitors report nothing on the model's own observations for every event list (c03_model_satisfies_monitors). "
                  "Model tied to the code by scheduled differential correspondence (synctest, one critical section at a time, extracted model must produce the same "
                  "status vectors, guarded value and channel open/closed flags); monitors evaluated on the implementation's observations.",
             note=NOTE + "Gate placement and the atomicity of a Broadcast critical section are trusted (C13 argues the lock discipline).",
